@@ -313,6 +313,32 @@ theorem lockpub_pair {x : Var} (m : Lock) (tr post mid pre : List Ev) (a b : Ev)
         exact evAt_append_of_some post (evAt_cons_of_some b hg1)
       exact .trans hig (.sw hgj hg1' hb (by simp [sw]))
 
+/-! ### the `forked` clause reduces to write-once when the `go` statement is inside the critical section -/
+
+/-- x is written under m only and not written from index g on; the event at g (the `go` statement) is
+    executed by a goroutine holding m: then every write to x happens-before g — `InitialisedBefore`, the
+    dynamic part of the `forked` guard, for the shape `mu.Lock(); init fields; go loop(); mu.Unlock()` -/
+theorem initialisedBefore_of_cs {x : Var} {m : Lock} {tr : List Ev} (hwf : WF tr)
+    (hwr : ∀ post a pre, tr = post ++ a :: pre → a.touches x = true → a.isWrite = true →
+      holder m pre = some a.tid)
+    {postg preg : List Ev} {f : Ev} (hg : tr = postg ++ f :: preg) (hf : holder m preg = some f.tid)
+    (hnw : NoWriteFrom x preg.length tr) : InitialisedBefore x preg.length tr := by
+  intro i a ha hax haw
+  have hig := hnw i a ha hax haw
+  have hfe : evAt tr preg.length = some f := evAt_of_eq hg
+  obtain ⟨post, mid, pre, ht, hli, hlj⟩ := race_split hig ha hfe
+  have hpre : preg = mid ++ a :: pre := by
+    have h1 : postg ++ f :: preg = post ++ f :: (mid ++ a :: pre) := by rw [← hg, ← ht]
+    have h2 := List.append_inj' h1 (by simp only [List.length_cons]; omega)
+    simpa using h2.2
+  by_cases hne : a.tid = f.tid
+  · exact .po hig ha hfe hne
+  · have hxa := hwr (post ++ f :: mid) a pre (by simp [ht]) hax haw
+    have hwfm : WF (mid ++ a :: pre) := by subst ht; exact (WF_suffix post _ hwf).1
+    have := cs_chain m post mid pre a f (holder_access m pre hax) hwfm hxa hne (Or.inl (by rw [← hpre]; exact hf))
+    rw [← ht, hli, hlj] at this
+    exact this
+
 /-! ### data-race freedom of disciplined traces -/
 
 /-- **disciplined_drf**: a variable whose accesses follow one class — apart from those its creating
